@@ -5,7 +5,8 @@ functions against the Lean model PW.Model.Rodrigues.  The model's SVD projection
 computes u·v with NumPy exactly as the code does and passes it as data; the contract "identity on proper rotations"
 is checked by the oracle (residual |u·v − R|).
 Oracle: the clauses of C10 on the implementation's own outputs (orthogonality, det, axis fixed, right-handed angle,
-round trips, length ≤ π, 3×1 shape, Jacobians vs central differences, J_fwd·J_inv = I₃).
+round trips, length ≤ π, 3×1 shape, Jacobians vs central differences, J_fwd·J_inv = I₃ — in the snap zone too: the
+half-turn snap branch returns a zero inverse Jacobian, key jacobian/composition/snap-branch, a listed known finding).
 """
 import math
 import random
@@ -23,7 +24,9 @@ RULE = ("rotation vectors: zero, tiny below/above eps=2^-52, integer lattice, ra
         "beyond pi, many turns (|r| up to 1e4), each as (3,), (3,1) or (1,3) (and (1,1,3)), calculate_jacobian on/off, called "
         "directly or through cv2_rodrigues; matrices: exact rational rotations from integer quaternions, half-turns about all 26 "
         "lattice directions and random (also axis-plane) axes, rot(k, 10^-j) and rot(k, pi-10^-j) (j=1..12, away from the sin=1e-5 "
-        "switch), random rotations, a few non-rotation matrices (model is total; no oracle); malformed shapes for the three functions. "
+        "switch), rot(k, pi-d) with d in [1e-9, 9e-6] about axes with one or two small components (1e-9..1e-2, as matrices and as "
+        "rotation vectors; corpus: the three axes (+-x,+-y,+-x), x=0.002, at pi-9e-6 that broke the snap bound before fix 9da4f71), "
+        "random rotations, a few non-rotation matrices (model is total; no oracle); malformed shapes for the three functions. "
         "Non-trivial = everything except the malformed stream; distinct = distinct spec")
 TRUSTED = ["np.linalg.svd projection u·v is a parameter of the model with contract 'identity on proper rotations'; the harness passes "
            "NumPy's actual u·v as data and the oracle checks the residual |u·v - R| <= 1e-14 on proper rotations",
@@ -34,8 +37,9 @@ TRUSTED = ["np.linalg.svd projection u·v is a parameter of the model with contr
            "theorems are stated on matrices given in axis-angle form"]
 ASSUMPTIONS = ["inputs keep a relative margin >= 1e-3 from the branch thresholds theta = eps and sin(theta) = 1e-5 (the property "
                "excludes inputs within rounding error of a threshold)",
-               "snap bound 2.5e-5 and 'Jacobian = derivative' are not proved (partial); they are measured by the oracle "
-               "(sweeps theta = 10^-k, pi - 10^-k; central differences)"]
+               "the snap bound 2.5e-5 is proved over the reals (snap_bound_holds; exact arithmetic, SVD projection = identity on "
+               "rotations) and measured in floating point by the oracle (sweeps theta = 10^-k, pi - 10^-k, small-component axes); "
+               "'Jacobian = derivative' is not proved (partial): central differences"]
 EXHAUSTIVE = {"quick": False, "thorough": False}
 
 EPS = float(np.finfo(np.double).eps)
@@ -75,6 +79,24 @@ def rand_unit(rng):
         n = math.sqrt(sum(x * x for x in v))
         if n > 1e-3:
             return [x / n for x in v]
+
+
+def small_axis(rng):
+    """a unit axis with one or two small components (1e-9..1e-2, either sign): just short of a half-turn the entries
+    r[i,j] = (1-c) k_i k_j -/+ s k_l then have the s-term outweigh the product of two small components"""
+    k = [rng.choice([-1.0, 1.0]) * rng.uniform(0.2, 1.0) for _ in range(3)]
+    idx = rng.sample(range(3), rng.choice([1, 2, 2]))
+    m = 10.0 ** rng.uniform(-9, -2)
+    for n, i in enumerate(idx):
+        # two small components: of the same order (ratio 0.1..10) half of the time, independent otherwise
+        mi = m * 10.0 ** rng.uniform(-1, 1) if (n == 1 and rng.random() < 0.5) else (m if n == 0 else 10.0 ** rng.uniform(-9, -2))
+        k[i] = rng.choice([-1.0, 1.0]) * min(mi, 1e-2)
+    return unit_of(k).tolist()
+
+
+def near_pi_delta(rng):
+    """pi - theta in [1e-9, 9e-6]: inside the snap zone, at least 1e-6 away from the sin = 1e-5 switch"""
+    return min(10.0 ** rng.uniform(-9, -5), 9e-6)
 
 
 def svd_proj(R):
@@ -118,6 +140,9 @@ def gen_vec(rng, kind):
         m = PI - 10.0 ** (-rng.randint(1, 12))
     elif kind == "near-pi-above":
         m = PI + 10.0 ** (-rng.randint(1, 12))
+    elif kind == "near-pi-small-axis":
+        k = small_axis(rng)
+        m = PI - near_pi_delta(rng)
     elif kind == "pi":
         m = PI
     elif kind == "beyond":
@@ -138,7 +163,7 @@ def gen_vec(rng, kind):
 
 
 VEC_KINDS = ["zero", "negzero", "tiny-below", "tiny-above", "random", "random", "random", "near-pi-below", "near-pi-above",
-             "pi", "beyond", "turns", "axis", "lattice"]
+             "pi", "beyond", "turns", "axis", "lattice", "near-pi-small-axis"]
 SHAPES = [[3], [3, 1], [1, 3]]
 
 
@@ -189,6 +214,8 @@ def gen_matrix_spec(rng, kind):
             k[rng.randrange(3)] = 0.0
             k = unit_of(k).tolist()
         return {"m": "axis-angle", "k": k, "theta": PI - d}
+    if kind == "near-pi-small-axis":
+        return {"m": "axis-angle", "k": small_axis(rng), "theta": PI - near_pi_delta(rng)}
     if kind == "random":
         return {"m": "axis-angle", "k": rand_unit(rng), "theta": rng.uniform(1e-3, PI - 1e-3)}
     if kind == "nonrot":
@@ -208,7 +235,8 @@ def gen_matrix_spec(rng, kind):
 
 
 MAT_KINDS = ["quat", "quat", "quat-big", "half-int", "half-float", "half-float", "identity", "near-identity", "near-identity",
-             "near-pi", "near-pi", "random", "random", "random", "nonrot"]
+             "near-pi", "near-pi", "random", "random", "random", "nonrot", "near-pi-small-axis", "near-pi-small-axis",
+             "near-pi-small-axis"]
 
 
 def matrix_of(ms):
@@ -489,6 +517,20 @@ def _oracle_inv(R, ms):
         e = float(np.abs(w.ravel() - want).max())
         if not e <= 1e-13 / s + 1e-14:
             out.append(("inv/axis-angle", "%s: result differs from theta*k by %g" % (desc, e)))
+    if snap:
+        # J_fwd . J_inv = I3 inside the snap zone as well (the clause is not restricted to the main range); the branch the
+        # code took is recomputed from the projected matrix exactly as the code does.  In the c > 0 branch the two constant
+        # Jacobians are exact inverses; in the c <= 0 (half-turn) branch the code returns an all-zero inverse Jacobian
+        Pc = svd_proj(R)
+        ax, ay, az = Pc[2, 1] - Pc[1, 2], Pc[0, 2] - Pc[2, 0], Pc[1, 0] - Pc[0, 1]
+        s_code = float(np.linalg.norm(np.array([ax, ay, az])) * np.sqrt(0.25))
+        c_code = float(np.clip((np.sum(np.diag(Pc)) - 1) * 0.5, -1, 1))
+        if s_code < 1e-5:
+            _, Jf = rodrigues_vector_to_rotation_matrix(w, calculate_jacobian=True)
+            e = float(np.abs(Jf @ J - np.eye(3)).max())
+            if not e <= 1e-12:
+                key = "jacobian/composition/snap-branch" if c_code <= 0 else "jacobian/composition"
+                out.append((key, "%s: |J_fwd J_inv - I3| = %g in the snap branch (c = %r, s = %r)" % (desc, e, c_code, s_code)))
     if not snap:
         # J_fwd . J_inv = I3, and the inverse Jacobian along the three tangent directions of SO(3)
         _, Jf = rodrigues_vector_to_rotation_matrix(w, calculate_jacobian=True)
